@@ -86,8 +86,11 @@ func normalizeSymbolicLinkAndEnsurePortable(path, target string) (string, error)
 	pathDepth := strings.Count(path, "/")
 	for _, component := range strings.Split(target, "/") {
 		// Update the depth.
-		if component == "." {
-			// No change to depth.
+		if component == "." || component == "" {
+			// No change to depth. Empty components (which arise from repeated
+			// or trailing slashes) are ignored during path resolution, just
+			// like references to the current directory, so they must not be
+			// counted as a descent.
 		} else if component == ".." {
 			pathDepth--
 		} else {
